@@ -12,7 +12,6 @@
 package verifsimrt
 
 import (
-	"os"
 	"encoding/base64"
 	"encoding/json"
 	"errors"
